@@ -219,6 +219,20 @@ fn run(v: &lite::Value) -> String {
         m2.update(&mut a2, time);
         for c in comps.iter() { let mut c2 = c.clone(); c2.start_with(&src); c2.update(&mut b2, time); }
         if a2 != b2 { mism.push(format!("start_with: merged {:?} vs each component started {:?}", a2, b2)); }
+        // purity of the merged evaluation (C09): another prior target gives the same animated properties; evaluating twice is idempotent
+        let animated_x = specs.iter().any(|sp| sp.split(';').nth(4).map(|m| m.as_bytes()[0] == b'1').unwrap_or(false));
+        let animated_y = specs.iter().any(|sp| sp.split(';').nth(4).map(|m| m.as_bytes()[1] == b'1').unwrap_or(false));
+        let mut other = S2 { x: -123.5, y: 201 };
+        merged.update(&mut other, time);
+        let mut pure_detail = String::new();
+        if (animated_x && other.x != a.x) || (animated_y && other.y != a.y) {
+            pure_detail = format!("merged.update at t = {} depends on the prior contents of the target: {:?} from S2 {{ x: 777.0, y: 77 }}, {:?} from S2 {{ x: -123.5, y: 201 }}", time, a, other);
+        }
+        let mut again = a.clone(); merged.update(&mut again, time);
+        if again != a && pure_detail.is_empty() { pure_detail = format!("evaluating twice is not idempotent: {:?} then {:?}", a, again); }
+        if v.get("want") == "purity" {
+            return format!("{{\"mismatch\":{},\"detail\":\"{}\"}}", !pure_detail.is_empty(), pure_detail.replace('"', "'"));
+        }
         let ord = |r: &Repeat| match r { Repeat::None => 0u64, Repeat::Times(n) => *n as u64, Repeat::Infinite => u32::MAX as u64 };
         if parms.is_empty() {
             if merged.delay() != 0.0 || merged.duration() != 0.0 || merged.repeat() != Repeat::None || merged.cycle_duration().is_some() { mism.push("empty list aggregates".to_string()); }
